@@ -81,7 +81,7 @@ def run(ctx):
     cases = []
     for i in range(16 if quick else 80):
         while True:
-            spec = c03.gen_spec(rng, nmax=rng.choice([3, 4, 5]))
+            spec = c03.gen_spec(rng, nmax=rng.choice([3, 4, 5]), p_empty=0.15, p_comb=0.4)
             n = sum(len(r.jobs) for r in ref_wf.evaluate(spec).values())
             if 2 <= n <= 12:
                 break
@@ -91,7 +91,24 @@ def run(ctx):
             cfgs += [{"kind": "gated", "order": 1, "k": rng.choice([1, 2])}, {"kind": "cf", "n_procs": 4},
                      {"kind": "gated", "order": 2}, {"kind": "cf", "n_procs": 2, "k": 1}]
         cases.append({"spec": spec, "configs": cfgs})
-    ctx.rule = ("C03 graphs with 2-12 jobs, each run under debug, cf(1|2 procs), cf(8 procs, limit k), gated cf with a random "
+    # directed: nodes that run no job at all (split over an empty list), with and without a combiner, followed by
+    # consumers - the two execution loops must agree on what "nothing upstream" means
+    E = {"form": "a", "vals": {"a": ["lit", []]}}
+    directed = [
+        {"nodes": [{"name": "N0", "inputs": {"c": ["lit", "k"]}, "split": E, "comb": ["a"]},
+                   {"name": "N1", "inputs": {"a": ["node", "N0"]}}, {"name": "N2", "inputs": {"a": ["node", "N1"]}}], "out": ["N2"]},
+        {"nodes": [{"name": "N0", "inputs": {"c": ["lit", "k"]}, "split": E},
+                   {"name": "N1", "inputs": {"a": ["node", "N0"]}}, {"name": "N2", "inputs": {"b": ["lit", "z"]}}], "out": ["N1"]},
+        {"nodes": [{"name": "N0", "inputs": {"c": ["lit", "k"]}, "split": E},
+                   {"name": "N1", "inputs": {"a": ["node", "N0"]}, "comb": ["N0.a"]},
+                   {"name": "N2", "inputs": {"a": ["node", "N1"], "b": ["lit", "z"]}}], "out": ["N2"]},
+        {"nodes": [{"name": "N0", "inputs": {"b": ["lit", "q"]}},
+                   {"name": "N1", "inputs": {"b": ["node", "N0"]}, "split": E, "comb": ["a"]},
+                   {"name": "N2", "inputs": {"a": ["node", "N1"], "c": ["node", "N0"]}}], "out": ["N2"]},
+    ]
+    base_cfgs = [{"kind": "debug"}, {"kind": "cf", "n_procs": 2}, {"kind": "gated", "order": 0}]
+    cases = [{"spec": sp, "configs": base_cfgs} for sp in directed] + cases
+    ctx.rule = ("4 directed graphs with a node that runs no job (empty split) feeding consumers + C03 graphs with 2-12 jobs, each run under debug, cf(1|2 procs), cf(8 procs, limit k), gated cf with a random "
                 "release order (thorough: 8 configurations); non-trivial = >=3 jobs and at least one configuration succeeded; "
                 "distinct = distinct graph spec")
     ctx.record_all(ctx.pmap("vp.props.c17:case_one", cases, nproc=5, timeout=1500 if quick else 3400))
